@@ -58,7 +58,7 @@ def shards(tier):
 def tree_family():
     fam = []
     leafsets = [[], [(7, "v")], [(None, "v")], [(3, "dev")],
-                [(7, "v"), (8, "v")]]
+                [(7, "v"), (8, "v")], [(None, "v"), (7, "w")]]
     # children of the root (0,0): subsets of E, N, NE
     for sub in itertools.chain.from_iterable(
             itertools.combinations((0, 2, 1), n) for n in range(0, 4)):
@@ -80,6 +80,15 @@ def tree_family():
                 root = ((0, 0), kids + (list(leaves) if not sub else []))
                 if root not in fam:
                     fam.append(root)
+                # the same with the local sinks listed BEFORE the onward
+                # children (the order of RoutingTree.children is free)
+                if leaves and sub:
+                    kids2 = [(l, (c, list(leaves) + [g for g in gk_
+                                                     if g not in leaves]))
+                             for l, (c, gk_) in kids]
+                    root = ((0, 0), list(leaves) + kids2)
+                    if root not in fam:
+                        fam.append(root)
     # a tree rooted elsewhere, passing through (1,0) westwards, and a chain
     fam.append(((2, 0), [(3, ((1, 0), [(3, ((0, 0), [(7, "v")]))]))]))
     fam.append(((1, 1), [(5, ((1, 0), [(7, "w")]))]))
